@@ -12,6 +12,7 @@ import math
 from mc import canon, charts, core, starts
 
 ID = "C08"
+LARGE = dict(quick="chart of 300 notes x 6 histories x every converter", thorough="charts of 300 and 1100 notes x 6 histories x every converter")
 TITLE = "Converting between games preserves chart content exactly, from any source state"
 RULE = (
     "history BFS: a state is a distinct canonical source chart/mapset reached by a sequence of editing operations; a transition is one "
